@@ -7,6 +7,11 @@ post-selection, photon filter, precision, noise, added components, detectors) in
 (`prob_distribution`, `all_prob`, `evolve`, `prob_amplitude`; `Simulator.probs_svd / probs / evolve`;
 `Stepper.evolve / probs`; `Processor.probs`).
 
+Extension round: every public Simulator query is a model step (`probs`, `probability`, `prob_amplitude`, `evolve_svd`,
+`probs(StateVector)` as well), Processor histories contain `add_herald` (followed by the input again), distribution
+inputs, a held NoiseModel updated in place and not assigned again, precisions, and histories without an explicit
+photon filter; the provenance the model reports is compared with the harness's own tracking at every query.
+
 Three streams of histories: recorded ones (corpus/C05, directed), random ones, and enumerated ones — for the
 backends every history over a reduced alphabet up to a length, for Simulator / Stepper / Processor every ordered
 pair of configuration steps around a query asked twice (`pairwise_*`: a step, a query that fills the caches, a
@@ -576,8 +581,8 @@ class SimulatorRun:
     """ops: ["circ", cid] | ["param", name, value] (+ set_circuit) | ["heralds", {mode: v}, "same"?] ("same": one dict
     object of the caller updated in place and passed again) | ["clear_heralds"] |
     ["ps", expr] | ["clear_ps"] | ["filter", k] | ["precision", x] | ["keep", b] |
-    ["q", "probs_svd", svd, det] | ["q", "probs", state] | ["q", "evolve", sv] | ["q", "evolve_svd", svd] |
-    ["q", "probability", in, out] | ["q", "amp", in, out]"""
+    ["q", "probs_svd", svd, det] | ["q", "probs", state] | ["q", "probs_sv", sv] | ["q", "evolve", sv] |
+    ["q", "evolve_svd", svd] | ["q", "probability", in, out] | ["q", "amp", in, out]"""
 
     def __init__(self, h):
         self.h = h
@@ -591,6 +596,7 @@ class SimulatorRun:
         self.hid = 0
         self.oid = 0
         self.sids = {}
+        self.cur_h = 0
         self.hobj = {}              # one long-lived dict, updated in place and passed again (flavour "same")
 
     def configure(self, s, cfg):
@@ -615,6 +621,8 @@ class SimulatorRun:
             return obs(lambda: sorted([[str(k), float(v)] for k, v in s.probs(BS(op[2])).items()]))
         if kind == "evolve":
             return obs(lambda: c_sv(s.evolve(parse_sv(op[2]) if len(op[2]) > 1 else BS(op[2][0][2]))))
+        if kind == "probs_sv":
+            return obs(lambda: sorted([[str(k), float(v)] for k, v in s.probs(parse_sv(op[2])).items()]))
         if kind == "evolve_svd":
             def f():
                 r = s.evolve_svd(parse_svd(op[2]))
@@ -688,40 +696,65 @@ class SimulatorRun:
         s = self.sim
         out, miss = {}, []
         if hasattr(s, "_evolve"):
-            keys = []
+            keys, bare = [], []
             for k in s._evolve.keys():
                 if isinstance(k, tuple):
                     keys.append([self.sid(str(k[0])), k[1]])
+                else:
+                    bare.append(self.sid(str(k)))
             out["evolve"] = sorted(keys)
+            out["bare"] = sorted(bare)
         else:
             miss.append("_evolve")
         if hasattr(s, "_can_use_mask"):
             out["can_mask"] = bool(s._can_use_mask)
         else:
             miss.append("_can_use_mask")
+        b = getattr(s, "_backend", None)
+        if b is not None and hasattr(b, "_masks_str") and hasattr(b, "_mask_n"):
+            # the mask the simulator left on its backend: the photon number it is instantiated with
+            out["bmask"] = None if b._masks_str is None else (b._mask_n if b._mask_n is not None else -1)
+        else:
+            miss.append("_backend._masks_str")
         return out, miss
 
     def sid(self, st):
         return self.sids.setdefault(st, len(self.sids) + 1)
 
     # ---- model encoding
-    def keys_of(self, svd_spec=None, sv_terms=None):
-        """the separated components the simulator evolves: (state id, photons of the whole term's vector, own);
-        `_preprocess_svd` drops the vectors with fewer photons than the filter (heralds included)"""
+    def best_n(self, can_mask, n_ext, n_own):
+        nh = sum(self.cfg["heralds"].values())
+        return min(n_ext, n_own + nh) if can_mask else n_own + nh
+
+    def keys_of(self, svd_spec=None, sv_terms=None, can_mask=False, flagged=False, all_vectors=False):
+        """the separated components the simulator evolves: (state id, photons of the whole term's vector, own), in the
+        order `_evolve_cache_with_n` walks them (sorted by the photon number `_best_n` gives them);
+        `_preprocess_svd` (probs_svd) drops the vectors with fewer photons than the filter (heralds included),
+        `evolve_svd` evolves every component and rebuilds the vectors that pass (flagged=True: [passes, [key]])"""
         BS = pc().pcvl.BasicState
         keys = []
         groups = svd_spec if svd_spec is not None else [[1, sv_terms]]
         need = self.cfg["filter"] + sum(self.cfg["heralds"].values()) if svd_spec is not None else 0
         for _, terms in groups:
             n_ext = max(BS(t[2]).n for t in terms)
-            if n_ext < need:
+            ok = n_ext >= need
+            if flagged:
+                ok = min(BS(t[2]).n for t in terms) >= need
+            elif not ok:
                 continue
             for re, im, st in terms:
                 for part in BS(st).separate_state(keep_annotations=False):
                     key = [self.sid(str(part)), n_ext, part.n]
-                    if key not in keys:
-                        keys.append(key)
-        return keys
+                    item = [ok, [key]] if flagged else key
+                    if item not in keys:
+                        keys.append(item)
+        nof = (lambda it: self.best_n(can_mask, it[1][0][1], it[1][0][2])) if flagged else \
+            (lambda it: self.best_n(can_mask, it[1], it[2]))
+        return sorted(keys, key=nof)
+
+    def parts_of(self, state):
+        BS = pc().pcvl.BasicState
+        return [self.sid(str(part)) for part in BS(state).separate_state(keep_annotations=False)]
 
     def model_op(self, op):
         k = op[0]
@@ -734,32 +767,46 @@ class SimulatorRun:
         if k == "heralds":
             self.hid += 1
             if not op[1]:
+                self.cur_h = 0
                 return ["heralds", 0, 0]
+            self.cur_h = self.hid
             return ["heralds", self.hid, sum(op[1].values())]
         if k == "clear_heralds":
+            self.cur_h = 0
             return ["clear_heralds"]
         if k in ("ps", "clear_ps", "filter", "precision", "keep"):
             self.oid += 1
             return ["other", self.oid]
         if k == "q":
             kind = op[1]
+            BS = pc().pcvl.BasicState
+            has_h = bool(cfg["heralds"])
             if kind == "probs_svd":
-                BS = pc().pcvl.BasicState
                 need = self.cfg["filter"] + sum(self.cfg["heralds"].values())
                 generic = any(len(terms) > 1 for _, terms in op[2] if max(BS(t[2]).n for t in terms) >= need)
+                pnr = op[3] in ("none", "pnr")
                 # the model covers inputs that survive trimming/filtering unchanged: single photon-number vectors
-                return ["probs_svd", op[3] in ("none", "pnr"), generic, self.keys_of(svd_spec=op[2])]
-            if kind == "evolve":
-                return ["evolve", self.keys_of(sv_terms=op[2])]
+                return ["probs_svd", pnr, generic, self.keys_of(svd_spec=op[2], can_mask=has_h and pnr)]
+            if kind == "evolve" or (kind == "probs_sv" and len(op[2]) > 1):
+                return ["evolve", self.keys_of(sv_terms=op[2], can_mask=has_h)]
+            if kind == "probs_sv":
+                return ["probs", self.parts_of(op[2][0][2])]
+            if kind == "probs":
+                return ["probs", self.parts_of(op[2])]
+            if kind in ("probability", "amp"):
+                if BS(op[2]).n == 0:
+                    return None             # answered before anything is touched
+                return ["direct", self.parts_of(op[2])]
+            if kind == "evolve_svd":
+                return ["evolve_svd", self.keys_of(svd_spec=op[2], can_mask=has_h, flagged=True)]
             return "skip"
         raise ValueError(op)
 
+    def expected(self, op):
+        return {"circ": self.uid, "h": self.cur_h, "o": self.oid, "raw": op[1] in ("probability", "amp")}
+
     def model_request(self, mops):
         return {"fam": "simulator", "fixed": True, "ops": mops}
-
-    def expected_res(self, mout):
-        parts, hid, oid = mout["res"]
-        return all(p[1] == self.uid for p in parts)
 
 
 SV_POOL = [
@@ -784,7 +831,6 @@ def gen_simulator(rng, variant, nops):
     h = {"family": "simulator", "variant": variant, "m": m, "params": params, "circuits": circuits,
          "ops": [["precision", 0], ["circ", "c0"]]}
     ops = h["ops"]
-    modelled_only = rng.random() < 0.6
     cur_h = {}
     asked = []          # the queries so far: asking one of them again after a change is what shows a stale cache
     while len(ops) < nops:
@@ -819,8 +865,6 @@ def gen_simulator(rng, variant, nops):
             ops.append(["precision", rng.choice([0, 0, 1e-6])])
         else:
             q = rng.random()
-            if modelled_only:
-                q = q * 0.55 if q < 0.7 else 0.75
             if q < 0.55:
                 k = rng.choice([1, 1, 2])
                 svs = rng.sample(SV_POOL, k)
@@ -830,17 +874,25 @@ def gen_simulator(rng, variant, nops):
             elif q < 0.70:
                 sv = rng.choice([s for s in SV_POOL if len(s) == 1 and "{" not in s[0][2]])
                 ops.append(["q", "probs", sv[0][2]])
-            elif q < 0.88:
+            elif q < 0.84:
                 ops.append(["q", "evolve", rng.choice(SV_POOL)])
+            elif q < 0.88:
+                ops.append(["q", "probs_sv", rng.choice([s for s in SV_POOL if "{" not in s[0][2]])])
             elif q < 0.94:
-                ops.append(["q", "probability", rng.choice(["|1,1,0>", "|2,0,0>", "|{_:0},{_:1},0>"]),
-                            rng.choice(["|1,1,0>", "|0,1,1>", "|0,2,0>"])])
+                ops.append(["q", rng.choice(["probability", "probability", "amp"]),
+                            rng.choice(["|1,1,0>", "|2,0,0>", "|{_:0},{_:1},0>", "|0,0,0>"]),
+                            rng.choice(["|1,1,0>", "|0,1,1>", "|0,2,0>", "|{_:0},0,{_:1}>"])])
             else:
                 ops.append(["q", "evolve_svd", [[0.5, rng.choice(SV_POOL)], [0.5, rng.choice(SV_POOL[:5])]]])
             if asked and rng.random() < 0.3:
                 ops[-1] = json.loads(json.dumps(rng.choice(asked)))     # the same question again
             asked.append(ops[-1])
     return h
+
+
+def photons(st):
+    """photon number of a state given as text (`|1,{_:0}{_:1},0>`)"""
+    return sum(seg.count("{") if "{" in seg else int(seg) for seg in st.strip("|>").split(","))
 
 
 def herald_sets(m):
@@ -1038,43 +1090,68 @@ NOISES = [None, {"brightness": 0.8}, {"indistinguishability": 0.7}, {"g2": 0.05,
           {"brightness": 0.7, "g2": 0.03, "indistinguishability": 0.9}]
 
 
+SOURCE_FIELDS = {"brightness": 1, "indistinguishability": 1, "g2": 0, "transmittance": 1}
+
+
+def perfect_source(spec):
+    """`Source.from_noise_model(nm).is_perfect()` as a function of the values"""
+    return spec is None or all(spec.get(k, d) == d for k, d in SOURCE_FIELDS.items())
+
+
+PRECISIONS = [1e-3, 1e-2]
+
+
 class ProcessorRun:
-    """init: {"m": circuit size, "heralds": {mode: v}}; ops: ["add", mode, compspec] | ["with_input", state] |
+    """init: {"m": circuit size, "heralds": {mode: v}, "comps": [[mode, compspec]…]}; ops: ["add", mode, compspec] |
+    ["add_herald", mode, v] | ["with_input", state] (on the modes of interest) | ["with_input_svd", svdspec] |
+    ["with_input_sv", terms] (distributions over the whole circuit: the source is bypassed) |
     ["noise", spec|None, "same"?] ("same": one NoiseModel object of the caller updated in place with set_value and
-    assigned again) | ["filter", k] | ["ps", expr] | ["clear_ps"] | ["param", name, value] |
-    ["det", mode, kind] | ["set_circuit", [[mode, compspec]…]] | ["q", "probs", precision|None]"""
+    assigned again) | ["noise_inplace", spec] (the held NoiseModel updated in place and NOT assigned again) |
+    ["filter", k] | ["ps", expr] | ["clear_ps"] | ["param", name, value] | ["det", mode, kind] |
+    ["set_circuit", [[mode, compspec]…]] | ["q", "probs", precision|None]
+
+    The configuration is what the user set last: the structural calls in their order (components and heralds; a
+    set_circuit replaces the components before it), detectors, post-selection, the noise VALUES AT THE LAST
+    ASSIGNMENT, the filter the user gave (None = never), the input."""
 
     def __init__(self, h):
         self.h = h
         self.variant = h["variant"]
         self.values = dict(h["params"])
         self.P = {}
-        # configuration: the initial components and heralds, then what the operations set last
-        self.cfg = {"init_comps": [list(x) for x in h["init"].get("comps", [])], "base": None, "comps": [],
-                    "heralds": dict(h["init"]["heralds"]), "dets": {}, "ps": None, "noise": None,
-                    "filter": None, "input": None}
+        struct = [["comp", m, list(sp)] for m, sp in h["init"].get("comps", [])]
+        struct += [["herald", int(m), v] for m, v in sorted(h["init"]["heralds"].items())]
+        self.cfg = {"struct": struct, "dets": {}, "ps": None, "noise": None, "filter": None, "input": None}
         self.M = h["init"]["m"]
-        self.p = self.construct(self.cfg, self.P, first=True)
+        self.p = self.construct(self.cfg, self.P)
         self.comps_id = 0
-        self.sel_id = 0
+        self.det_id = 0
+        self.her_id = 1 if h["init"]["heralds"] else 0
+        self.ps_id = 0
         self.noise_id = 0
         self.input_id = 0
         self.nm = None              # one long-lived NoiseModel, updated in place and assigned again (flavour "same")
+        self.held_is_nm = False     # the processor currently holds self.nm
+        self.stored_filter = None   # what the code has in `_min_detected_photons_filter` (explicit or automatic)
+        self.auto = False           # … written by the automatic rule
+        self.dirty = False
 
-    def construct(self, cfg, P, first=False):
+    def heralds(self, cfg=None):
+        return {it[1]: it[2] for it in (cfg or self.cfg)["struct"] if it[0] == "herald"}
+
+    def construct(self, cfg, P):
         p = pc().pcvl
         proc = p.Processor(self.variant, self.M)
-        for mode, spec in cfg["init_comps"]:
-            proc.add(mode, build_comp(spec, P, self.values))
-        for mode, v in sorted(cfg["heralds"].items()):
-            proc.add_herald(int(mode), v)
-        if cfg["base"] is not None:
-            c = p.Circuit(self.M)
-            for mode, spec in cfg["base"]:
-                c.add(mode, build_comp(spec, P, self.values))
-            proc.set_circuit(c)
-        for mode, spec in cfg["comps"]:
-            proc.add(mode, build_comp(spec, P, self.values))
+        for it in cfg["struct"]:
+            if it[0] == "comp":
+                proc.add(it[1], build_comp(it[2], P, self.values))
+            elif it[0] == "herald":
+                proc.add_herald(it[1], it[2])
+            else:
+                c = p.Circuit(self.M)
+                for mode, spec in it[1]:
+                    c.add(mode, build_comp(spec, P, self.values))
+                proc.set_circuit(c)
         for mode, kind in sorted(cfg["dets"].items()):
             proc.add(int(mode), p.Detector.threshold() if kind == "th" else p.Detector.pnr())
         if cfg["ps"]:
@@ -1084,7 +1161,13 @@ class ProcessorRun:
         if cfg["filter"] is not None:
             proc.min_detected_photons_filter(cfg["filter"])
         if cfg["input"] is not None:
-            proc.with_input(p.BasicState(cfg["input"]))
+            kind, val = cfg["input"]
+            if kind == "bs":
+                proc.with_input(p.BasicState(val))
+            elif kind == "svd":
+                proc.with_input(parse_svd(val))
+            else:
+                proc.with_input(parse_sv(val))
         return proc
 
     def query(self, proc, op):
@@ -1098,7 +1181,14 @@ class ProcessorRun:
         if k == "add":
             r = obs(lambda: proc.add(op[1], build_comp(op[2], self.P, self.values)) and None)
             if "v" in r:
-                cfg["comps"].append([op[1], op[2]])
+                cfg["struct"].append(["comp", op[1], op[2]])
+            return r
+        if k == "add_herald":
+            r = obs(lambda: proc.add_herald(op[1], op[2]) and None)
+            if "v" in r:
+                cfg["struct"].append(["herald", op[1], op[2]])
+                if cfg["input"] is not None and cfg["input"][0] == "bs":
+                    cfg["input"] = None     # a Fock-state input has to be given again (it has another length now)
             return r
         if k == "set_circuit":
             def f():
@@ -1108,33 +1198,46 @@ class ProcessorRun:
                 proc.set_circuit(c)
             r = obs(f)
             if "v" in r:
-                cfg["base"] = [list(x) for x in op[1]]
-                cfg["comps"] = []
+                cfg["struct"] = [it for it in cfg["struct"] if it[0] == "herald"] + [["base", [list(x) for x in op[1]]]]
             return r
         if k == "with_input":
             r = obs(lambda: proc.with_input(p.BasicState(op[1])) and None)
             if "v" in r:
-                cfg["input"] = op[1]
+                cfg["input"] = ["bs", op[1]]
+            return r
+        if k == "with_input_svd":
+            r = obs(lambda: proc.with_input(parse_svd(op[1])) and None)
+            if "v" in r:
+                cfg["input"] = ["svd", op[1]]
+            return r
+        if k == "with_input_sv":
+            r = obs(lambda: proc.with_input(parse_sv(op[1])) and None)
+            if "v" in r:
+                cfg["input"] = ["sv", op[1]]
             return r
         if k == "noise":
             cfg["noise"] = op[1]
+            self.dirty = False
             if len(op) > 2 and op[2] == "same" and op[1] is not None:
                 def g2():
                     if self.nm is None:
                         self.nm = p.NoiseModel()
-                    nm = self.nm
-                    for key in NOISE_FIELDS:                   # public API only: NoiseModel[...].set / set_value
-                        if key not in op[1]:
-                            nm[key].set(nm[key].default)
-                    for key, value in op[1].items():
-                        nm.set_value(key, value)
-                    proc.noise = nm
+                    self.set_in_place(op[1])
+                    proc.noise = self.nm
+                self.held_is_nm = True
                 return obs(g2)
+            self.held_is_nm = False
             def g():
                 proc.noise = noise_of(op[1])
             return obs(g)
+        if k == "noise_inplace":
+            if not self.held_is_nm:
+                return {"v": None}
+            self.dirty = True       # cfg["noise"] keeps the values of the last assignment
+            return obs(lambda: self.set_in_place(op[1]))
         if k == "filter":
             cfg["filter"] = op[1]
+            self.stored_filter, self.auto = op[1], False
             return obs(lambda: proc.min_detected_photons_filter(op[1]) and None)
         if k == "ps":
             cfg["ps"] = op[1]
@@ -1153,15 +1256,39 @@ class ProcessorRun:
                 cfg["dets"][str(op[1])] = op[2]
             return r
         if k == "q":
+            if self.stored_filter is None and cfg["input"] is not None and cfg["input"][0] == "bs" \
+                    and perfect_source(cfg["noise"]):
+                # `check_min_detected_photons_filter` stores the automatic value as if the user had set it
+                self.stored_filter, self.auto = sum(cfg["input"][1]), True
             return self.query(proc, op)
         raise ValueError(op)
 
+    def set_in_place(self, spec):
+        nm = self.nm
+        for key in NOISE_FIELDS:                   # public API only: NoiseModel[...].set / set_value
+            if key not in spec:
+                nm[key].set(nm[key].default)
+        for key, value in spec.items():
+            nm.set_value(key, value)
+
     def fresh(self, op):
+        """the fresh-object oracle.  While the stored photon filter is the automatic one of an earlier call (open
+        known finding processor-auto-filter-persists, reported by its own probe) the fresh processor is given that
+        stored value explicitly: everything else still has to be history-independent."""
+        cfg = self.cfg
+        asis = self.auto and cfg["filter"] is None and not self.h.get("plain_oracle")
+        if asis:
+            cfg = dict(cfg, filter=self.stored_filter)
         try:
-            f = self.construct(self.cfg, {})
+            f = self.construct(cfg, {})
         except Exception as e:
             return {"e": "fresh-construction:" + exc_name(e)}
-        return self.query(f, op)
+        r = self.query(f, op)
+        if asis:
+            self.asis_used = True
+        return r
+
+    asis_used = False
 
     def snapshot(self):
         proc = self.p
@@ -1171,55 +1298,107 @@ class ProcessorRun:
                 out[key] = getattr(proc, name) is not None
             else:
                 miss.append(name)
+        if hasattr(proc, "_simulator_precision_set"):
+            out["prec_set"] = bool(proc._simulator_precision_set)
+        else:
+            miss.append("_simulator_precision_set")
+        try:
+            out["filt"] = proc.experiment.min_photons_filter
+        except Exception:
+            miss.append("min_photons_filter")
         return out, miss
+
+    def model_prefix(self):
+        hs = self.h["init"]["heralds"]
+        return [["herald", 1, sum(hs.values())]] if hs else []
 
     def model_op(self, op):
         k = op[0]
-        if k in ("add", "det", "ps", "clear_ps"):
-            if k == "clear_ps" and self.cfg["ps"] is None:
-                return None                 # `clear_postselection` does nothing without a post-selection
-            self.comps_id += 1
-            self.sel_id += 1
-            return ["add", self.comps_id, self.sel_id]
-        if k == "set_circuit":
+        if k in ("add", "set_circuit"):
             # repaired code: `Experiment.set_circuit` notifies the processor (the simulator is dropped)
             self.comps_id += 1
-            return ["add", self.comps_id, self.sel_id]
+            return ["add", self.comps_id]
+        if k == "det":
+            self.det_id += 1
+            return ["det", self.det_id]
+        if k == "add_herald":
+            self.her_id += 1
+            return ["herald", self.her_id, sum(self.heralds().values()) + op[2]]
+        if k == "ps":
+            self.ps_id += 1
+            return ["ps", self.ps_id]
+        if k == "clear_ps":
+            return ["clear_ps"]
         if k == "param":
             self.comps_id += 1
             return ["comps", self.comps_id]
         if k == "noise":
             self.noise_id += 1
-            return ["noise", self.noise_id]
+            return ["noise", self.noise_id, perfect_source(op[1])]
+        if k == "noise_inplace":
+            if not self.held_is_nm:
+                return None
+            return ["mutate", 1000 + self.noise_id, perfect_source(op[1])]
         if k == "with_input":
             self.input_id += 1
-            return ["input", self.input_id]
+            return ["input", "bs", self.input_id, sum(op[1])]
+        if k in ("with_input_svd", "with_input_sv"):
+            self.input_id += 1
+            return ["input", "svd", self.input_id, 0]
         if k == "filter":
             return ["filter", op[1]]
         if k == "q":
-            if self.cfg["filter"] is None or op[2] is not None:
-                return "skip"       # automatic photon filter / explicit precision: not in the model
-            return ["probs"]
+            return ["probs", None if op[2] is None else PRECISIONS.index(op[2]) + 1]
         raise ValueError(op)
 
+    def expected(self, op):
+        """the provenance the as-is model has to report for a query answered now (tracked independently here)"""
+        if self.cfg["input"] is None or self.stored_filter is None:
+            return None
+        bs = self.cfg["input"][0] == "bs"
+        return {"comps": self.comps_id, "her": self.her_id, "ps": self.ps_id if self.cfg["ps"] else 0,
+                "det": self.det_id, "phase": self.noise_id, "src": self.noise_id if bs else None,
+                "kind": "bs" if bs else "svd", "inp": self.input_id, "her_in": self.her_id if bs else 0,
+                "filt": self.stored_filter, "prec": None if op[2] is None else PRECISIONS.index(op[2]) + 1}
+
     def model_request(self, mops):
-        return {"fam": "processor", "ops": mops}
-
-    def expected_res(self, mout):
-        c, sel, n, i, f = mout["res"]
-        return c == self.comps_id and sel == self.sel_id and n == self.noise_id and i == self.input_id \
-            and f == self.cfg["filter"]
+        return {"fam": "processor", "persist": True, "ops": mops}
 
 
-def gen_processor(rng, variant, nops):
+def legal_processor(h):
+    """after add_herald a Fock-state input has to be given again before the next query (the processor expects an
+    input of another length; the old one cannot be given to a fresh processor)"""
+    inp = None
+    for op in h["ops"]:
+        k = op[0]
+        if k == "with_input":
+            inp = "bs"
+        elif k in ("with_input_svd", "with_input_sv"):
+            inp = "svd"
+        elif k == "add_herald":
+            if inp == "bs":
+                inp = "stale"
+        elif k == "q" and inp == "stale":
+            return False
+    return True
+
+
+PERFECT_NOISES = [None, {"phase_imprecision": 0.3}, {"phase_imprecision": 0.1}]    # (phase_error is random)
+
+
+def gen_processor(rng, variant, nops, auto=False):
+    """auto=True: no explicit photon filter before the first query (the automatic one is stored by that query — the
+    open known finding; the fresh processor is then given the stored value) and a perfect source until a filter is
+    given"""
     M = rng.choice([2, 3, 3])
     heralds = {}
     if M == 3 and rng.random() < 0.5:
         heralds = {str(rng.randrange(M)): rng.choice([0, 1])}
-    moi = M - len(heralds)
+    hv = {int(k): v for k, v in heralds.items()}        # heralds so far
     params = {"a%d" % i: round(rng.uniform(0.4, 2.6), 3) for i in range(2)}
     used_params = set()
-    blocked = set(int(k) for k in heralds)      # herald modes, then modes with a detector
+    blocked = set(hv)      # herald modes, then modes with a detector
+    dets = set()
 
     def rand_comp(allow_lc=True):
         r = rng.random()
@@ -1249,40 +1428,77 @@ def gen_processor(rng, variant, nops):
     h = {"family": "processor", "variant": variant, "params": params,
          "init": {"m": M, "heralds": heralds, "comps": init_comps}, "ops": []}
     ops = h["ops"]
+    explicit = [not auto]
+    held = [False]          # the processor holds the caller's long-lived NoiseModel object
+
+    def full_state(n_target=None):
+        st = [hv.get(k, rng.choice([0, 1, 1])) for k in range(M)]
+        return st
+
+    def fock(st):
+        return "|" + ",".join(str(x) for x in st) + ">"
 
     def rand_input():
-        return [rng.choice([0, 1, 1]) for _ in range(moi)]
-    ops.append(["with_input", rand_input()])
-    # the filter is always given explicitly: the automatic value (`check_min_detected_photons_filter`) is
-    # stored as if the user had set it — covered by the probe `processor-auto-filter-persists`
-    ops.append(["filter", rng.choice([0, 1, 1, 2])])
+        """a Fock state on the modes of interest, or (explicit filter only) a distribution over the whole circuit"""
+        r = rng.random()
+        if r < 0.7 or not explicit[0]:
+            return ["with_input", [rng.choice([0, 1, 1]) for _ in range(M - len(hv))]]
+        a = full_state()
+        bst = list(a)
+        free = [k for k in range(M) if k not in hv]
+        if len(free) >= 2:                      # same photon number, one photon moved
+            i, j = rng.sample(free, 2)
+            if bst[i] > 0:
+                bst[i] -= 1
+                bst[j] += 1
+        if r < 0.85:
+            return ["with_input_svd", [[0.75, [[1, 0, fock(a)]]], [0.25, [[1, 0, fock(full_state())]]]]
+                    if bst == a else [[0.5, [[0.6, 0, fock(a)], [0, 0.8, fock(bst)]]], [0.5, [[1, 0, fock(full_state())]]]]]
+        return ["with_input_sv", [[1, 0, fock(a)]] if bst == a else [[0.6, 0, fock(a)], [0.8, 0, fock(bst)]]]
+
+    def rand_noise():
+        return rng.choice(NOISES if explicit[0] else PERFECT_NOISES)
+
+    ops.append(rand_input())
+    if not auto:
+        ops.append(["filter", rng.choice([0, 1, 1, 2])])
     while len(ops) < nops:
         r = rng.random()
-        if r < 0.12:
+        if r < 0.11:
             w, spec = rand_comp()
             k = place(w, blocked)
             if k is not None:
                 ops.append(["add", k, spec])
-        elif r < 0.22:
-            ops.append(["with_input", rand_input()])
-        elif r < 0.34:
-            ops.append(["noise", rng.choice(NOISES)])
-            if rng.random() < 0.5:
+        elif r < 0.21:
+            ops.append(rand_input())
+        elif r < 0.31:
+            ops.append(["noise", rand_noise()])
+            held[0] = False
+            if rng.random() < 0.6:
                 ops[-1].append("same")      # the caller's own NoiseModel updated in place and assigned again
-        elif r < 0.44:
-            ops.append(["filter", rng.choice([0, 1, 1, 2])])
-        elif r < 0.49:
-            ops.append(["ps", rng.choice(["[0] < 2", "[0] > 0", "[0,1] == 1"][:2 if moi < 2 else 3])])
-        elif r < 0.52:
+                held[0] = ops[-1][1] is not None
+        elif r < 0.35:
+            if held[0]:                     # … updated in place and NOT assigned again: nothing may change
+                ops.append(["noise_inplace", rng.choice([x for x in NOISES if x is not None] + INPLACE_NOISES)])
+                if rng.random() < 0.7:
+                    ops.append(["q", "probs", None])
+        elif r < 0.43:
+            if explicit[0] or rng.random() < 0.3:
+                ops.append(["filter", rng.choice([0, 1, 1, 2])])
+                explicit[0] = True
+        elif r < 0.48:
+            ops.append(["ps", rng.choice(["[0] < 2", "[0] > 0", "[0,1] == 1"][:2 if M - len(hv) < 2 else 3])])
+        elif r < 0.51:
             ops.append(["clear_ps"])
-        elif r < 0.60 and used_params:
+        elif r < 0.58 and used_params:
             ops.append(["param", rng.choice(sorted(used_params)), round(rng.uniform(0.4, 2.6), 3)])
-        elif r < 0.64:
-            free = [k for k in range(M) if str(k) not in heralds]
+        elif r < 0.62:
+            free = [k for k in range(M) if k not in hv]
             k = rng.choice(free)
             blocked.add(k)
+            dets.add(k)
             ops.append(["det", k, rng.choice(["th", "pnr"])])
-        elif r < 0.68:
+        elif r < 0.66:
             comps = []
             for _ in range(rng.randint(1, 3)):
                 w, spec = rand_comp(allow_lc=False)
@@ -1290,8 +1506,17 @@ def gen_processor(rng, variant, nops):
                     spec[1] = 1.234
                 comps.append([rng.randrange(M - w + 1), spec])
             ops.append(["set_circuit", comps])
+        elif r < 0.71:
+            free = [k for k in range(M) if k not in hv and k not in dets]
+            if M - len(hv) >= 2 and free:      # a herald declared late; the input is given again
+                k = rng.choice(free)
+                v = rng.choice([0, 1])
+                ops.append(["add_herald", k, v])
+                hv[k] = v
+                blocked.add(k)
+                ops.append(rand_input())
         else:
-            ops.append(["q", "probs", None if rng.random() < 0.85 else rng.choice([1e-3, 1e-2])])
+            ops.append(["q", "probs", None if rng.random() < 0.8 else rng.choice(PRECISIONS)])
     return h
 
 
@@ -1311,14 +1536,20 @@ def run_history(h, stop_at_first=True):
     mops = []
     nq = 0
     follow = True
+    for sub in (R.model_prefix() if hasattr(R, "model_prefix") else []):
+        mops.append(sub)
+        trace.append({"i": -1, "nocheck": True})
     for i, op in enumerate(h["ops"]):
         mop = R.model_op(op) if follow else "skip"
         real = R.apply(op)
         fresh = None
         if op[0] == "q":
             nq += 1
+            R.asis_used = False
             fresh = R.fresh(op)
             if not agree(real, fresh):
+                if R.asis_used:
+                    fresh = dict(fresh, oracle="as-is")
                 fails.append((i, op, real, fresh))
         if follow and mop == "skip":
             follow = False
@@ -1334,10 +1565,14 @@ def run_history(h, stop_at_first=True):
                     trace.append({"i": i, "nocheck": True})
                 mop = mop["multi"][-1]
             mops.append(mop)
-            trace.append({"i": i, "status": status, "snap": snap, "miss": miss})
+            t = {"i": i, "status": status, "snap": snap, "miss": miss}
+            if op[0] == "q" and hasattr(R, "expected"):
+                t["expect"] = R.expected(op)
+            trace.append(t)
         if fails and stop_at_first:
             break
-    return {"fails": fails, "trace": trace, "request": R.model_request(mops), "nq": nq, "followed": follow}
+    return {"fails": fails, "trace": trace, "request": R.model_request(mops), "nq": nq, "followed": follow,
+            "auto": bool(getattr(R, "auto", False))}
 
 
 def fail_sig(h, f):
@@ -1346,6 +1581,7 @@ def fail_sig(h, f):
     i, op, real, fresh = f
     ks = [o[0] for o in h["ops"][:i]]
     fam, var = h["family"], h["variant"]
+    asis = isinstance(fresh, dict) and fresh.get("oracle") == "as-is"
     if fam == "backend" and var == "SLOS" and real.get("e") == "KeyError" and ("mask" in ks or "clear" in ks):
         return "slos-mask-change-after-input"
     if fam == "backend" and var == "SLOS" and ks.count("in") >= 2 and "mask" in ks:
@@ -1362,6 +1598,8 @@ def fail_sig(h, f):
     if fam == "simulator" and prev_q is not None and ("heralds" in since or "clear_heralds" in since) \
             and not any(x in since for x in ("circ", "param")):
         return "simulator-stale-after-heralds-change"
+    if fam == "processor" and "noise_inplace" in since and "noise" not in since and "e" not in real:
+        return "processor-in-place-noise-update-observed"
     if fam == "processor" and "noise" in since and "filter" in ks and "e" not in real:
         return "processor-stale-after-noise-change"
     if fam == "simulator" and op[1] == "probs_svd" and any(o[0] == "q" and o[1] in ("probs_svd", "evolve", "evolve_svd")
@@ -1373,7 +1611,7 @@ def fail_sig(h, f):
     if fam == "simulator" and op[1] == "evolve" and any(o[0] == "q" and o[1] in ("probs_svd", "evolve_svd")
                                                        for o in h["ops"][:i]):
         return "simulator-evolve-inherits-mask-mode"
-    if fam == "processor" and "filter" not in ks:
+    if fam == "processor" and "filter" not in ks and not asis:
         return "processor-auto-filter-persists"     # no explicit photon filter so far: the automatic one is in play
     if fam == "processor" and "e" in real and "set_circuit" in ks:
         return "processor-set-circuit-keeps-nonunitary-flags"
@@ -1385,6 +1623,8 @@ def fail_sig(h, f):
         if not kinds or kinds[-1] != k:
             kinds.append(k)
     what = ("raises-" + real["e"]) if "e" in real else ("fresh-raises-" + fresh["e"] if "e" in fresh else "differs")
+    if asis:
+        what += "-from-fresh-given-the-stored-automatic-filter"
     return f"{h['family']}:{h['variant']}:{what}:" + ">".join(kinds)
 
 
@@ -1408,6 +1648,8 @@ def shrink_history(h):
             return False
         if keep_filter and auto_filter_in_play(ops):
             return False        # do not shrink a history into the shape of the known automatic-filter finding
+        if h["family"] == "processor" and not legal_processor(hh):
+            return False
         try:
             return bool(run_history(hh)["fails"])
         except Exception:
@@ -1430,7 +1672,26 @@ def describe_fail(f):
 # ------------------------------------------------------------------------------------------------
 SOFT_KEYS = {"backend": ["iter", "masks", "mask_n", "has_mask", "inputs", "npaths", "fsas", "layers", "inst_n",
                          "fock", "cut_req"],
-             "simulator": ["evolve", "can_mask"], "stepper": ["compiled"], "processor": ["sim", "inputs_map"]}
+             "simulator": ["evolve", "bare", "can_mask", "bmask"], "stepper": ["compiled"],
+             "processor": ["sim", "inputs_map", "prec_set", "filt"]}
+
+
+def provenance_diff(fam, exp, mo):
+    """-> None or (field, model value, tracked value)"""
+    if fam == "processor":
+        for k, v in exp.items():
+            if mo["res"].get(k) != v:
+                return (k, mo["res"].get(k), v)
+        return None
+    r = mo["res"]
+    for part in r[0]:
+        if part[1] != exp["circ"]:
+            return ("circuit", part[1], exp["circ"])
+    if bool(mo.get("raw")) != exp["raw"]:
+        return ("raw", bool(mo.get("raw")), exp["raw"])
+    if not exp["raw"] and (r[1] != exp["h"] or r[2] != exp["o"]):
+        return ("selection", r[1:], [exp["h"], exp["o"]])
+    return None
 
 
 def compare_model(chk, h, res, reply):
@@ -1464,6 +1725,15 @@ def compare_model(chk, h, res, reply):
             out.append((f"exception-{opk}", f"step {t['i']}: code {st}, model {mo}"))
             break
         chk.count("status", st if rst != "exc" else st)
+        # provenance: the ghosts the model reports against what the harness tracked on its own
+        exp = t.get("expect")
+        if exp and isinstance(mo, dict):
+            bad = provenance_diff(h["family"], exp, mo)
+            if bad:
+                out.append((f"provenance-{bad[0]}", f"step {t['i']} {json.dumps(h['ops'][t['i']])}: the model's answer "
+                                                    f"carries {bad[0]} = {json.dumps(bad[1])}, tracked {json.dumps(bad[2])}"))
+                break
+            chk.count("provenance_checked", h["family"])
         # soft tie
         for k in SOFT_KEYS[h["family"]]:
             if k in t["snap"] and k in ma:
@@ -1585,7 +1855,7 @@ def _work_inner(label, hs):
                 shrunk = h
         out.append({"h": h, "fails": [(i, op, real, fresh) for i, op, real, fresh in fails],
                     "shrunk": shrunk, "trace": res["trace"], "request": res["request"], "nq": res["nq"],
-                    "t": time.time() - t0})
+                    "auto": res.get("auto", False), "t": time.time() - t0})
     return label, out
 
 
@@ -1618,7 +1888,7 @@ DIRECTED = [
 
 
 AUTO_FILTER_PROBE = {
-    "family": "processor", "variant": "SLOS", "params": {},
+    "family": "processor", "variant": "SLOS", "params": {}, "plain_oracle": True,
     "init": {"m": 2, "heralds": {}, "comps": [[0, ["BS", 1.1, 0.4]]]},
     "ops": [["with_input", [1, 1]], ["q", "probs", None], ["with_input", [1, 0]], ["q", "probs", None]]}
 
@@ -1686,6 +1956,9 @@ PAIR_SIM_QUERIES = [
     ["q", "probs_svd", [[1.0, SV_POOL[8]]], "pnr"],
     ["q", "evolve_svd", [[0.5, _SUP], [0.5, [[1, 0, "|2,0,0>"]]]]],
     ["q", "probability", "|1,1,0>", "|0,1,1>"],
+    ["q", "amp", "|{_:0},{_:1},0>", "|{_:0},0,{_:1}>"],
+    ["q", "probs_sv", _SUP],
+    ["q", "evolve_svd", [[0.5, [[1, 0, "|1,0,0>"]]], [0.5, [[1, 0, "|1,1,0>"]]]]],
 ]
 
 
@@ -1717,6 +1990,19 @@ def pairwise_simulator(variant, rng, ncross, nq=None):
         a, b = rng.choice(pairs)
         q1, q2 = rng.sample(PAIR_SIM_QUERIES, 2)
         hs.append(dict(base, ops=_cp([["precision", 0], ["circ", "c0"], a, q1, b, q2])))
+    # a query that leaves the heralds mask on the backend, then heralds without photons (or none) and an input with a
+    # vacuum member (`use_mask` is not called for it), or a query that uses no mask at all
+    vac = [["q", "probs_svd", [[0.5, [[1, 0, "|0,0,0>"]]], [0.5, [[1, 0, "|1,0,0>"]]]], "pnr"],
+           ["q", "evolve_svd", [[0.5, [[1, 0, "|0,0,0>"]]], [0.5, [[1, 0, "|0,1,0>"]]]]],
+           ["q", "probs", "|1,1,0>"], ["q", "amp", "|1,1,0>", "|0,1,1>"]]
+    for a in PAIR_HERALDS[:5]:
+        # (an input with fewer photons than the heralds expect instantiates the mask below its own digits: such a
+        # mask keeps nothing of a later vacuum input)
+        for q1 in (PAIR_SIM_QUERIES[0], PAIR_SIM_QUERIES[2], PAIR_SIM_QUERIES[7],
+                   ["q", "probs_svd", [[1.0, [[1, 0, "|1,0,0>"]]]], "pnr"], ["q", "evolve", [[1, 0, "|0,1,0>"]]]):
+            for b in (["heralds", {"0": 0}], ["heralds", {"2": 0}], ["clear_heralds"]):
+                for q2 in vac:
+                    hs.append(dict(base, ops=_cp([["precision", 0], ["circ", "c0"], ["heralds", a], q1, b, q2])))
     return hs
 
 
@@ -1740,10 +2026,32 @@ def pairwise_stepper(variant):
 PAIR_PROC_COMPS = [[0, ["BS", ["p", "a0"], 0.4]], [1, ["BS", 0.7, 2.0]], [0, ["PS", 0.3]]]
 
 
+# values for the in-place update: a source parameter, and a phase quantisation that moves the PS(0.3) of the circuit
+INPLACE_NOISES = [{"brightness": 0.8}, {"phase_imprecision": 0.25}, {"indistinguishability": 0.6, "phase_imprecision": 0.2}]
+PAIR_SVD3 = [[0.75, [[0.6, 0, "|1,1,0>"], [0, 0.8, "|0,1,1>"]]], [0.25, [[1, 0, "|1,0,0>"]]]]
+PAIR_SVD3H = [[0.75, [[0.6, 0, "|1,0,1>"], [0, 0.8, "|0,1,1>"]]], [0.25, [[1, 0, "|1,1,1>"]]]]
+PAIR_SV3 = [[0.6, 0, "|1,1,0>"], [0.8, 0, "|1,0,1>"]]
+
+
+def _expand(ops, m, nher):
+    """flatten compound steps; ["with_input", "AUTO"] = one photon on every mode of interest left"""
+    out = []
+    for op in ops:
+        for o in (op if isinstance(op[0], list) else [op]):
+            o = _cp(o)
+            if o[0] == "add_herald":
+                nher += 1
+            if o[0] == "with_input" and o[1] == "AUTO":
+                o[1] = [1] * (m - nher)
+            out.append(o)
+    return out
+
+
 def pairwise_processor(variant, with_herald, noise_only):
     heralds = {"2": 1} if with_herald else {}
     ins = [[1, 1], [1, 0], [0, 1]] if with_herald else [[1, 1, 0], [1, 0, 0], [0, 1, 1]]
     steps = [["noise", x] for x in NOISES]
+    new = []
     if not noise_only:
         steps += [["with_input", x] for x in ins]
         steps += [["filter", 0], ["filter", 1], ["filter", 2], ["ps", "[0] < 2"], ["clear_ps"], ["param", "a0", 1.9],
@@ -1751,11 +2059,47 @@ def pairwise_processor(variant, with_herald, noise_only):
                   ["set_circuit", [[0, ["BS", 1.234, 0.3]], [1, ["BS", 0.8, 0.2]]]]]
         if variant != "MPS":
             steps.append(["add", 0, ["LC", 0.3]])
+        # the extended alphabet: a distribution as input (the source is bypassed), a herald declared late (the input
+        # is given again), crossed with every step in both orders
+        new = [["with_input_svd", PAIR_SVD3H if with_herald else PAIR_SVD3]]
+        if not with_herald:
+            new += [["with_input_sv", PAIR_SV3],
+                    [["add_herald", 1, 1], ["with_input", "AUTO"]], [["add_herald", 0, 0], ["with_input", "AUTO"]]]
     base = {"family": "processor", "variant": variant, "params": PAIR_PARAMS,
             "init": {"m": 3, "heralds": heralds, "comps": PAIR_PROC_COMPS}}
     q = ["q", "probs", None]
-    return [dict(base, ops=_cp([["with_input", ins[0]], ["filter", 1], a, q, b, q]))
-            for a, b in _flavoured_pairs(steps, "noise")]
+    def hist(a, b):
+        return dict(base, ops=_expand([["with_input", ins[0]], ["filter", 1], a, q, b, q], 3, len(heralds)))
+    hs = [hist(a, b) for a, b in _flavoured_pairs(steps, "noise")]
+    ext = [hist(a, b) for a in new for b in steps + new] + [hist(a, b) for a in steps for b in new]
+    # the held NoiseModel updated in place and NOT assigned again: the second answer is the first one
+    for a in steps:
+        if a[0] == "noise" and a[1] is not None:
+            for y in INPLACE_NOISES:
+                # (a circuit whose phase shifter is followed by a beam splitter: the phase quantisation matters)
+                ext.append(dict(hist(a + ["same"], ["noise_inplace", y]),
+                                init={"m": 3, "heralds": heralds, "comps": PAIR_PROC_COMPS + [[0, ["BS", 0.9, 0.1]]]}))
+    if not noise_only:
+        # a precision given to one call: the calls around it use the default one, whatever lies in between
+        for b in steps + new:
+            for p1, p2 in ((1e-2, None), (None, 1e-3), (1e-2, 1e-3)):
+                ext.append(dict(base, ops=_expand([["with_input", ins[0]], ["filter", 1], ["q", "probs", p1], b,
+                                                   ["q", "probs", p2], q], 3, len(heralds))))
+    return hs, ext
+
+
+def pairwise_processor_auto(variant):
+    """no explicit photon filter: the automatic one of the first query is stored (open known finding); the fresh
+    processor is given the stored value, everything else has to be history-independent"""
+    ins = [[1, 1, 0], [1, 0, 0], [0, 1, 1]]
+    steps = [["noise", x] for x in PERFECT_NOISES] + [["with_input", x] for x in ins]
+    steps += [["ps", "[0] < 2"], ["clear_ps"], ["param", "a0", 1.9], ["add", 0, ["BS", 0.9, 0.1]], ["det", 0, "th"],
+              ["set_circuit", [[0, ["BS", 1.234, 0.3]], [1, ["BS", 0.8, 0.2]]]], ["filter", 1],
+              [["add_herald", 1, 1], ["with_input", "AUTO"]], [["add_herald", 0, 0], ["with_input", "AUTO"]]]
+    base = {"family": "processor", "variant": variant, "params": PAIR_PARAMS,
+            "init": {"m": 3, "heralds": {}, "comps": PAIR_PROC_COMPS}}
+    q = ["q", "probs", None]
+    return [dict(base, ops=_expand([["with_input", ins[0]], a, q, b, q], 3, 0)) for a in steps for b in steps]
 
 
 def _chunks(hs, n):
@@ -1772,7 +2116,11 @@ def run(chk: core.Check):
         "legal histories only: a mask has the length of the circuit it meets; backend parameter changes are followed "
         "by set_circuit (the backend snapshots the unitary); Simulator histories keep one circuit size; a mutable "
         "argument (mask list, heralds dict, NoiseModel) updated in place is always handed over again before the next "
-        "query (an in-place update the object is never told about is not a legal operation)",
+        "query (an in-place update the object is never told about is not a legal operation) — except the NoiseModel a "
+        "Processor holds: updated in place and NOT assigned again, every answer has to be the one for the values at "
+        "the last assignment; after Processor.add_herald a Fock-state input is given again before the next query",
+        "Processor histories without an explicit photon filter: the automatic value stored by the first query (open "
+        "known finding, reported by its own probe) is given explicitly to the fresh processor",
         "Simulator model: masked and unmasked evaluation agree after herald post-selection (C04); "
         "Stepper model: describe() is injective on the parameter values used",
         "exqalibur kernels are deterministic functions of their arguments",
@@ -1786,7 +2134,11 @@ def run(chk: core.Check):
                              "same-object-updated-in-place-and-given-again:backend",
                              "same-object-updated-in-place-and-given-again:simulator",
                              "same-object-updated-in-place-and-given-again:stepper",
-                             "same-object-updated-in-place-and-given-again:processor"]
+                             "same-object-updated-in-place-and-given-again:processor",
+                             "simulator-mask-free-query-after-masked-query", "simulator-evolve-svd-filtered-vector",
+                             "processor-herald-declared-after-query", "processor-distribution-input-then-noise",
+                             "processor-noise-updated-in-place-not-assigned-then-query",
+                             "processor-precision-then-default", "processor-automatic-filter-stored-then-requery"]
     seed_rng = chk.rng
     jobs = []
     # corpus first
@@ -1821,6 +2173,8 @@ def run(chk: core.Check):
     for v in ["SLOS", "Naive", "MPS"]:
         hs = [gen_processor(random.Random(seed_rng.getrandbits(64)), v, random.Random(seed_rng.getrandbits(32)).randint(8, min(nops, 40)))
               for _ in range(chk.pick(30, 120))]
+        hs += [gen_processor(random.Random(seed_rng.getrandbits(64)), v, random.Random(seed_rng.getrandbits(32)).randint(8, min(nops, 30)),
+                             auto=True) for _ in range(chk.pick(12, 48))]
         for k in range(2):
             jobs.append((f"random:processor:{v}", hs[k::2]))
 
@@ -1839,9 +2193,18 @@ def run(chk: core.Check):
         for part in _chunks(part_of(pairwise_stepper(v), stride), 6):
             jobs.append((f"pairwise:stepper:{v}", part))
     for v, stride in (("SLOS", 1), ("Naive", 3), ("MPS", 2)):
-        hs = pairwise_processor(v, False, False) + pairwise_processor(v, True, chk.pick(True, False))
-        for part in _chunks(part_of(hs, stride), 6):
+        h0, e0 = pairwise_processor(v, False, False)
+        h1, e1 = pairwise_processor(v, True, chk.pick(True, False))
+        # the extended alphabet (distribution inputs, late heralds, in-place noise, precisions): complete in the
+        # thorough tier, one residue class of it in the quick tier
+        ext = e0 + e1
+        random.Random(seed_rng.getrandbits(64)).shuffle(ext)
+        hs = part_of(h0 + h1, stride) + part_of(ext, 3 * stride)
+        for part in _chunks(hs, 6):
             jobs.append((f"pairwise:processor:{v}", part))
+    for v, stride in (("SLOS", 2), ("Naive", 8)):
+        for part in _chunks(part_of(pairwise_processor_auto(v), stride), 3):
+            jobs.append((f"pairwise:processor-auto:{v}", part))
     jobs.sort(key=lambda j: (j[0] not in ("corpus", "directed"), -len(j[1])))         # largest jobs first
 
     global _MARK_DIR
@@ -1985,19 +2348,58 @@ def account(chk, label, h, item):
             q_since = False
     if fam == "processor":
         q = False
+        svd_in = False
+        dirty = False
+        prec = False
         for o in ops:
             if o[0] == "q":
+                if dirty:
+                    chk.branch("processor-noise-updated-in-place-not-assigned-then-query")
+                if prec and o[2] is None:
+                    chk.branch("processor-precision-then-default")
+                prec = o[2] is not None
+                if q and item.get("auto"):
+                    chk.branch("processor-automatic-filter-stored-then-requery")
                 q = True
-            elif o[0] == "noise" and q:
-                chk.branch("processor-noise-change-after-probs")
+            elif o[0] == "noise":
+                dirty = False
+                if q:
+                    chk.branch("processor-noise-change-after-probs")
+                if svd_in and q:
+                    chk.branch("processor-distribution-input-then-noise")
+            elif o[0] == "noise_inplace":
+                dirty = True
+            elif o[0] in ("with_input_svd", "with_input_sv"):
+                svd_in = True
+            elif o[0] == "with_input":
+                svd_in = False
+            elif o[0] == "add_herald" and q:
+                chk.branch("processor-herald-declared-after-query")
     if fam == "simulator":
         last = None
+        her, masked, filt = {}, False, 0
         for o in ops:
             if o[0] == "q" and o[1] == "probs_svd":
                 mode = o[3] in ("none", "pnr")
                 if last is not None and last != mode:
                     chk.branch("simulator-detector-mode-change")
                 last = mode
+            # a query that leaves the heralds mask on the backend, then one that must not run under it
+            if o[0] == "heralds":
+                her = dict(o[1])
+            elif o[0] == "clear_heralds":
+                her = {}
+            elif o[0] == "filter":
+                filt = o[1]
+            elif o[0] == "q":
+                if o[1] in ("probs", "probability", "amp") and masked:
+                    chk.branch("simulator-mask-free-query-after-masked-query")
+                if her and (o[1] in ("evolve", "evolve_svd", "probs_sv") or (o[1] == "probs_svd" and o[3] in ("none", "pnr"))):
+                    masked = True
+                elif o[1] in ("probs", "probability", "amp"):
+                    masked = False
+                if o[1] == "evolve_svd" and filt + sum(her.values()) > min(photons(t[2]) for _, terms in o[2] for t in terms):
+                    chk.branch("simulator-evolve-svd-filtered-vector")
         # the same question through the evolved-state cache before and after a change of heralds that keeps the
         # number of heralded photons (other modes / swapped expectations), the circuit untouched in between
         seen = {}
